@@ -18,6 +18,7 @@ import (
 	"strconv"
 	"strings"
 	"sync"
+	"sync/atomic"
 	"time"
 )
 
@@ -66,6 +67,7 @@ type Run struct {
 	inconcl     []string
 	inconclCases int64
 	journal     *os.File
+	lastJournal atomic.Int64
 	replayN     int
 	maxSamples  int
 }
@@ -274,9 +276,14 @@ func PanicSite(stack []byte) string {
 // Case runs f, journaling desc first and converting a panic into a violation
 // keyed by the panic site. It returns false if f panicked.
 func (r *Run) Case(oracle string, desc any, f func()) (ok bool) {
+	// the journal is for post-mortems of a child that died hard: an entry every few
+	// milliseconds is enough to locate the neighbourhood, and keeps high-volume checks fast
 	if r.journal != nil {
-		d, _ := json.Marshal(desc)
-		r.Journal("%s %s", oracle, d)
+		if now := time.Now().UnixNano(); now-r.lastJournal.Load() > 2_000_000 {
+			r.lastJournal.Store(now)
+			d, _ := json.Marshal(desc)
+			r.Journal("%s %s", oracle, d)
+		}
 	}
 	defer func() {
 		if e := recover(); e != nil {
